@@ -170,14 +170,19 @@ Definition is_equal (a b : vv) : bool :=
   match vcompare a b with VEqual => true | _ => false end.
 
 (** v.MergeFromWithOptions(o, {MaxClockSkew: skew, VersionConcurrentStrategy: strat}) with
-    time.Now().UnixNano() = now; returns the new v and [changed]. *)
-Definition view_merge (skew strat now : Z) (v o : view) : view * bool :=
+    time.Now().UnixNano() = now; returns the new v and [changed].
+    [cmp_pruned] selects the vector the merged vector is compared with for [changed]:
+      false = the vector as it was BEFORE recomputeCounts pruned it (beforeVV; the code as it is now),
+      true  = the already pruned vector (the code before the repair of the changed flag; kept only
+              for the regression examples, see [view_merge_before_fix]). *)
+Definition view_merge_gen (cmp_pruned : bool) (skew strat now : Z) (v o : view) : view * bool :=
   if bool_decide (size (vw_members o) = 0%nat) then (v, false) else
   let concurrent := is_concurrent (vw_vv v) (vw_vv o) in
   let ch_m := members_changed (vw_members v) (vw_members o) in
+  let before_vv := vw_vv v in
   let v1 := recompute (set_members v (merge_members (vw_members v) (vw_members o))) in
   let mvv := vmerge (vw_vv v1) (vw_vv o) in
-  let ch_v := negb (is_equal mvv (vw_vv v1)) in
+  let ch_v := negb (is_equal mvv (if cmp_pruned then vw_vv v1 else before_vv)) in
   let adopt := negb (skew_skip skew now (vw_ts o)) && negb (concurrent && (strat =? 1)%Z) in
   let up_e := adopt && (vw_epoch v <? vw_epoch o)%Z in
   let up_t := adopt && (vw_ts v <? vw_ts o)%Z in
@@ -189,6 +194,14 @@ Definition view_merge (skew strat now : Z) (v o : view) : view * bool :=
         (if up_p then vw_proto o else vw_proto v)
         (vw_maxent v),
    ch_m || ch_v || up_e || up_t || up_p).
+
+(** the code as it is *)
+Definition view_merge (skew strat now : Z) (v o : view) : view * bool :=
+  view_merge_gen false skew strat now v o.
+(** the code before commit 53b1085 ("compare with the vector before recomputeCounts"): same new view,
+    but [changed] did not see the entries the prune had dropped *)
+Definition view_merge_before_fix (skew strat now : Z) (v o : view) : view * bool :=
+  view_merge_gen true skew strat now v o.
 
 (** MergeFrom(o) = default options *)
 Definition view_merge_default (now : Z) (v o : view) : view * bool := view_merge 0 0 now v o.
